@@ -284,14 +284,21 @@ P('C18', claimed=True, level='other',
 
 P('C19', claimed=True, level='other',
   contracts=['synth_envelope', 'base_utils'], drivers=['vf.drivers.C19'],
-  level_text=('Shape-name table and curve values are exhaustive finite obligations on the real '
-              'Env._shape_number/_curve_value; the array layout, the eleven constructors, client-side '
-              'evaluation (breakpoints, betweenness, hold) and the EnvGen inputs in definition bytes are decided '
-              'by a bounded run-time contract driver against an independent Env reference.'),
-  level_note=('Env._envgen_format/_env_at go through dynamic graph-parameter dispatch and are outside the '
-              'provable subset: bounded only (20k formats, 2.5k envelopes x dense time grids in quick). '
-              'Betweenness tolerance 1e-9 (1e-5 with cubed segments).'),
-  technique='exhaustive table obligations on the real functions + bounded run-time contracts against an independent Env reference')
+  level_text=('Discharged: the shape-name table and curve values (exhaustive finite obligations on the real '
+              'Env._shape_number/_curve_value); the array layout of Env._envgen_format for any number of segments '
+              '(initial level, segment count = len(times), release and loop node or -99 when the conversion gives '
+              'None, then per segment exactly target level i+1, duration i, shape number and curvature of '
+              'curves[i mod len(curves)], in this order; loop invariant over the appended values, shape/curvature '
+              'as pure uninterpreted functions so that hoisting or caching them is not an alarm); client-side '
+              'evaluation Env._env_at on the linear/step/hold shapes (breakpoints, betweenness, hold after the '
+              'end); the wrap law of utils.wrap_extend used for times. Bounded, against an independent Env '
+              'reference: the eleven constructors, all shapes incl. the transcendental ones on dense time grids, '
+              'per-channel levels/times/curves, offsets, and the EnvGen inputs in definition bytes.'),
+  level_note=('In the _envgen_format contract the conversions by ugen_param are opaque (levels/times/curves as '
+              'converted are arbitrary sequences with len(levels) = len(times) + 1) and utl.flop is an opaque call '
+              '(per-channel expansion is bounded only: 20k formats in quick). Transcendental shapes bounded only '
+              '(2.5k envelopes x dense time grids). Betweenness tolerance 1e-9 (1e-5 with cubed segments).'),
+  technique='contract-based deductive verification of Env._envgen_format/_env_at/wrap_extend (pyvc, z3) + exhaustive table obligations + bounded run-time contracts against an independent Env reference')
 
 P('C20', claimed=True, needs_driver=True, level='other',
   contracts=['synth_synthdef'], drivers=['vf.drivers.C20'],
